@@ -7,8 +7,9 @@ CONSTANTS
   LoadSets <- MCLoadSets
   MaxOps = 2
   MaxTxns = 2
+  ShapeNames <- UNames
+  NameLessC <- TabLess
 INVARIANT TypeOK
 INVARIANT CommittedLaws
-INVARIANT WorkingLaws
 PROPERTY OnlyCommitChanges
 CHECK_DEADLOCK FALSE
